@@ -78,6 +78,10 @@ def run(run):
     run.negative_control_trace("trace/Trace_YearMonth.tla", "trace/Trace_YearMonth.cfg", small, corrupt_event)
     with open(tr) as f:
         nontrivial += sum(1 for l in f if '"reset"' not in l)
+    # second trace leg: until/since with year/month smallest units, increments > 1 and all rounding modes, judged by the
+    # relative-rounding specification applied to the first of the month (RelativeRound via Trace_Relative)
+    tr2 = run.record(b, "c18r", 3000 if run.tier == "quick" else 40000, label="c18r")
+    run.validate("trace/Trace_Relative.tla", "trace/Trace_Relative.cfg", tr2, label="c18r")
     run.cov["rule"] = ("replay: every construction route, every ordered pair of routes to the same month, every (year-month, duration, overflow, add|subtract) and "
                        "(year-month, year-month, settings, until|since) transition of the bounded YearMonthMachine instances is one distinct case (TLC distinct states); "
                        "trivial = constructor / bare YYYY-MM string of an ordinary month; traces: seeded sessions over the whole range (distinct by the PRNG stream)")
